@@ -487,7 +487,7 @@ class MetadorGroup(MetadorNode):
             dst_path = dest
         elif isinstance(dest, MetadorGroup):
             self._guard_path(dst_name)  # (could be a reserved name passed as `name`)
-            dst_path = dest.name + f"/{dst_name}"
+            dst_path = dest.name.rstrip("/") + f"/{dst_name}"  # (the root is "/")
         else:
             raise ValueError("Copy dest must be path or Group!")
 
